@@ -358,8 +358,10 @@ void pbt_run(const Case& cs, Ctx& ctx) {
   for (int i = 0; i < NCL; ++i) h.removeClient(i, false);
   for (int i = 0; i < NLI; ++i) h.removeListener(i);
   for (int i = 0; i < NES; ++i) h.removeEst(i);
+  // the harness ends of the TCP connections go first and with a reset: then neither side keeps a TIME_WAIT entry (the local port
+  // range is shared by all workers and all checks that run at the same time)
+  for (int fd : h.looseFds) { struct linger lg = {1, 0}; setsockopt(fd, SOL_SOCKET, SO_LINGER, &lg, sizeof lg); close(fd); }
   delete server;
-  for (int fd : h.looseFds) close(fd);
   for (Obj* p : h.graveyard) delete p;
   { LedgerPause lp; h.graveyard.clear(); h.graveyard.shrink_to_fit();
     h.reactions.clear(); h.reactions.shrink_to_fit(); h.faultPool.clear(); h.faultPool.shrink_to_fit(); srv::st().faults.clear(); srv::st().faults.shrink_to_fit(); srv::st().watched.clear(); srv::st().permScript.clear(); srv::st().permScript.shrink_to_fit(); h.looseFds.clear(); h.looseFds.shrink_to_fit(); }
